@@ -19,8 +19,9 @@ package hessian
 //@   ensures [C04:dec-register] len(d.refList) == len(old(d.refList)) + 1
 
 //@ func (*Decoder).readRef
-//@   assigns @pos, @E, @lastreader
+//@   assigns @pos, @E, @lastreader, @calls
 //@   sets @lastreader = 8
+//@   sets @calls = old(@calls) + 1
 //@   ensures [C04,C14:ref-in-table] err == nil ==> tag == 0x51
 //@   proves  [C04:ref-denotes] err == nil ==> 0 <= idx && idx < len(d.refList)
 
@@ -43,7 +44,7 @@ package hessian
 //@   ensures [C05:find-by-name] err == nil ==> R.tFieldName(typ, result0) == name || R.tFieldName(typ, result0) == R.capName(name)
 
 //@ func (*Decoder).readObject
-//@   assigns @pos, @E, @declared, @rset, @nvals, @selfregs, @lastreader, @dstartcls, @dstartrefs, @dstarttyps, d.typList, d.refList, d.clsDefList
+//@   assigns @pos, @E, @declared, @rset, @nvals, @selfregs, @lastreader, @calls, @dstartcls, @dstartrefs, @dstarttyps, d.typList, d.refList, d.clsDefList
 //@   loop 1 invariant [C14,C05:object-index] 0 <= i && i <= len(cls.FieldName)
 //@   loop 1 invariant [C04:object-registered-first] @selfregs == old(@selfregs) + 1 && len(d.refList) >= len(old(d.refList)) + 1
 //@   loop 1 invariant [C05,C06:object-one-value-per-field] @nvals == old(@nvals) + i
@@ -52,36 +53,40 @@ package hessian
 //@   ensures [C06:tables-grow] len(d.clsDefList) >= len(old(d.clsDefList)) && len(d.refList) >= len(old(d.refList)) && len(d.typList) >= len(old(d.typList))
 
 //@ func (*Decoder).readField
-//@   assigns @pos, @E, @declared, @rset, @nvals, @selfregs, @lastreader, @dstartcls, @dstartrefs, @dstarttyps, d.typList, d.refList, d.clsDefList
+//@   assigns @pos, @E, @declared, @rset, @nvals, @selfregs, @lastreader, @calls, @dstartcls, @dstartrefs, @dstarttyps, d.typList, d.refList, d.clsDefList
 //@   summary @nvals = old(@nvals) + 1
 //@   summary @selfregs = old(@selfregs)
+//@   summary @calls = old(@calls)
 //@   ensures [C05:field-total] true
 //@   ensures [C06:tables-grow] len(d.clsDefList) >= len(old(d.clsDefList)) && len(d.refList) >= len(old(d.refList)) && len(d.typList) >= len(old(d.typList))
 
 //@ func (*Decoder).readTagObject
-//@   assigns @pos, @E, @declared, @rset, @nvals, @selfregs, @lastreader, @dstartcls, @dstartrefs, @dstarttyps, d.typList, d.refList, d.clsDefList
+//@   assigns @pos, @E, @declared, @rset, @nvals, @selfregs, @lastreader, @calls, @dstartcls, @dstartrefs, @dstarttyps, d.typList, d.refList, d.clsDefList
 //@   sets @lastreader = 7
+//@   sets @calls = old(@calls) + 1
 //@   proves [C05,C14:long-instance-index] err == nil ==> 0 <= idx && idx < len(old(d.clsDefList))
 //@   ensures [C05:tagobject-total] true
 //@   ensures [C06:tables-grow] len(d.clsDefList) >= len(old(d.clsDefList)) && len(d.refList) >= len(old(d.refList)) && len(d.typList) >= len(old(d.typList))
 
 //@ func (*Decoder).ReadLenTagObject
 //@   requires 0x60 <= tag && tag <= 0x6f
-//@   assigns @pos, @E, @declared, @rset, @nvals, @selfregs, @lastreader, @dstartcls, @dstartrefs, @dstarttyps, d.typList, d.refList, d.clsDefList
+//@   assigns @pos, @E, @declared, @rset, @nvals, @selfregs, @lastreader, @calls, @dstartcls, @dstartrefs, @dstarttyps, d.typList, d.refList, d.clsDefList
 //@   sets @lastreader = 6
+//@   sets @calls = old(@calls) + 1
 //@   ensures [C05,C14:compact-instance-index] err == nil ==> 0x60 <= tag && int(tag) - 0x60 < len(old(d.clsDefList))
 //@   ensures [C06:tables-grow] len(d.clsDefList) >= len(old(d.clsDefList)) && len(d.refList) >= len(old(d.refList)) && len(d.typList) >= len(old(d.typList))
 
 //@ func (*Decoder).readObjectDef
-//@   assigns @pos, @E, @declared, @rset, @nvals, @selfregs, @lastreader, @dstartcls, @dstartrefs, @dstarttyps, d.typList, d.refList, d.clsDefList
+//@   assigns @pos, @E, @declared, @rset, @nvals, @selfregs, @lastreader, @calls, @dstartcls, @dstartrefs, @dstarttyps, d.typList, d.refList, d.clsDefList
 //@   ensures [C05:def-appended] err == nil ==> len(d.clsDefList) >= len(old(d.clsDefList)) + 1
 //@   ensures [C06:tables-grow] len(d.clsDefList) >= len(old(d.clsDefList)) && len(d.refList) >= len(old(d.refList)) && len(d.typList) >= len(old(d.typList))
 
 // ---------------------------------------------------------------- lists (C03, C04, C06, C14)
 
 //@ func (*Decoder).readTypedList
-//@   assigns @pos, @E, @declared, @rset, @nvals, @selfregs, @lastreader, @dstartcls, @dstartrefs, @dstarttyps, d.typList, d.refList, d.clsDefList
+//@   assigns @pos, @E, @declared, @rset, @nvals, @selfregs, @lastreader, @calls, @dstartcls, @dstartrefs, @dstarttyps, d.typList, d.refList, d.clsDefList
 //@   sets @lastreader = 1
+//@   sets @calls = old(@calls) + 1
 //@   loop 1 invariant [C14,C03:typedlist-index] (isVariableArr || (0 <= j && j <= length)) && 0 <= length
 //@   loop 1 invariant [C03,C06:typedlist-one-value-per-element] @nvals == old(@nvals) + j
 //@   loop 1 invariant [C04:typedlist-registered-first] @selfregs == old(@selfregs) + 1 && len(d.refList) >= len(old(d.refList)) + 1
@@ -91,8 +96,9 @@ package hessian
 //@   ensures [C06:tables-grow] len(d.clsDefList) >= len(old(d.clsDefList)) && len(d.refList) >= len(old(d.refList)) && len(d.typList) >= len(old(d.typList))
 
 //@ func (*Decoder).readUntypedList
-//@   assigns @pos, @E, @declared, @rset, @nvals, @selfregs, @lastreader, @dstartcls, @dstartrefs, @dstarttyps, d.typList, d.refList, d.clsDefList
+//@   assigns @pos, @E, @declared, @rset, @nvals, @selfregs, @lastreader, @calls, @dstartcls, @dstartrefs, @dstarttyps, d.typList, d.refList, d.clsDefList
 //@   sets @lastreader = 2
+//@   sets @calls = old(@calls) + 1
 //@   loop 1 invariant [C14,C03:untypedlist-index] (isVariableArr || (0 <= j && j <= length)) && 0 <= length && (!isVariableArr ==> len(ary) == length)
 //@   loop 1 invariant [C03,C06:untypedlist-one-value-per-element] @nvals == old(@nvals) + j
 //@   loop 1 invariant [C04:untypedlist-registered-first] @selfregs == old(@selfregs) + 1 && len(d.refList) >= len(old(d.refList)) + 1
@@ -103,33 +109,36 @@ package hessian
 
 //@ func (*Decoder).ReadList
 //@   requires flag == -1 || (0 <= flag && flag <= 255)
-//@   assigns @pos, @E, @declared, @rset, @nvals, @selfregs, @lastreader, @dstartcls, @dstartrefs, @dstarttyps, d.typList, d.refList, d.clsDefList
+//@   assigns @pos, @E, @declared, @rset, @nvals, @selfregs, @lastreader, @calls, @dstartcls, @dstartrefs, @dstarttyps, d.typList, d.refList, d.clsDefList
 //@   summary @nvals = old(@nvals) + ite(err == nil, 1, 0)
 //@   summary @selfregs = old(@selfregs)
-//@   ensures [C01,C03:list-dispatch-typed]   err == nil && flag != -1 && (byte(flag) == 'V' || byte(flag) == 0x55 || (0x70 <= byte(flag) && byte(flag) <= 0x77)) ==> @lastreader == 1
-//@   ensures [C01,C03:list-dispatch-untyped] err == nil && flag != -1 && (byte(flag) == 0x58 || byte(flag) == 0x57 || (0x78 <= byte(flag) && byte(flag) <= 0x7f)) ==> @lastreader == 2
-//@   ensures [C01,C03:list-dispatch-ref]     err == nil && flag != -1 && byte(flag) == 0x51 ==> @lastreader == 8
+//@   summary @calls = old(@calls)
+//@   ensures [C01,C03:list-dispatch-typed]   flag != -1 && (byte(flag) == 'V' || byte(flag) == 0x55 || (0x70 <= byte(flag) && byte(flag) <= 0x77)) ==> @lastreader == 1 && @calls == old(@calls) + 1
+//@   ensures [C01,C03:list-dispatch-untyped] flag != -1 && (byte(flag) == 0x58 || byte(flag) == 0x57 || (0x78 <= byte(flag) && byte(flag) <= 0x7f)) ==> @lastreader == 2 && @calls == old(@calls) + 1
+//@   ensures [C01,C03:list-dispatch-ref]     flag != -1 && byte(flag) == 0x51 ==> @lastreader == 8 && @calls == old(@calls) + 1
 //@   ensures [C06:tables-grow] len(d.clsDefList) >= len(old(d.clsDefList)) && len(d.refList) >= len(old(d.refList)) && len(d.typList) >= len(old(d.typList))
 
 // ---------------------------------------------------------------- maps (C03, C04, C06)
 
 //@ func (*Decoder).readTypedMap
-//@   assigns @pos, @E, @declared, @rset, @nvals, @selfregs, @lastreader, @dstartcls, @dstartrefs, @dstarttyps, d.typList, d.refList, d.clsDefList
+//@   assigns @pos, @E, @declared, @rset, @nvals, @selfregs, @lastreader, @calls, @dstartcls, @dstartrefs, @dstarttyps, d.typList, d.refList, d.clsDefList
 //@   sets @lastreader = 3
+//@   sets @calls = old(@calls) + 1
 //@   loop 1 invariant [C04:typedmap-registered-first] @selfregs == old(@selfregs) + 1 && len(d.refList) >= len(old(d.refList)) + 1
 //@   ensures [C04:typedmap-registered] err == nil ==> @selfregs == old(@selfregs) + 1
 //@   ensures [C06:tables-grow] len(d.clsDefList) >= len(old(d.clsDefList)) && len(d.refList) >= len(old(d.refList)) && len(d.typList) >= len(old(d.typList))
 
 //@ func (*Decoder).readUntypedMap
-//@   assigns @pos, @E, @declared, @rset, @nvals, @selfregs, @lastreader, @dstartcls, @dstartrefs, @dstarttyps, d.typList, d.refList, d.clsDefList
+//@   assigns @pos, @E, @declared, @rset, @nvals, @selfregs, @lastreader, @calls, @dstartcls, @dstartrefs, @dstarttyps, d.typList, d.refList, d.clsDefList
 //@   sets @lastreader = 4
+//@   sets @calls = old(@calls) + 1
 //@   loop 1 invariant [C04:untypedmap-registered-first] @selfregs == old(@selfregs) + 1 && len(d.refList) >= len(old(d.refList)) + 1
 //@   ensures [C04:untypedmap-registered] err == nil ==> @selfregs == old(@selfregs) + 1
 //@   ensures [C06:untypedmap-no-carrier] err == nil ==> result0 != nil
 //@   ensures [C06:tables-grow] len(d.clsDefList) >= len(old(d.clsDefList)) && len(d.refList) >= len(old(d.refList)) && len(d.typList) >= len(old(d.typList))
 
 //@ func (*Decoder).readMap
-//@   assigns @pos, @E, @declared, @rset, @nvals, @selfregs, @lastreader, @dstartcls, @dstartrefs, @dstarttyps, d.typList, d.refList, d.clsDefList
+//@   assigns @pos, @E, @declared, @rset, @nvals, @selfregs, @lastreader, @calls, @dstartcls, @dstartrefs, @dstarttyps, d.typList, d.refList, d.clsDefList
 //@   loop 1 invariant [C04:map-registered-first] @selfregs == old(@selfregs) + 1 && len(d.refList) >= len(old(d.refList)) + 1
 //@   ensures [C04:map-total] true
 //@   ensures [C06:tables-grow] len(d.clsDefList) >= len(old(d.clsDefList)) && len(d.refList) >= len(old(d.refList)) && len(d.typList) >= len(old(d.typList))
@@ -137,26 +146,28 @@ package hessian
 // ---------------------------------------------------------------- dispatch (C01, C03, C06)
 
 //@ func (*Decoder).readStruct
-//@   assigns @pos, @E, @declared, @rset, @nvals, @selfregs, @lastreader, @dstartcls, @dstartrefs, @dstarttyps, d.typList, d.refList, d.clsDefList
+//@   assigns @pos, @E, @declared, @rset, @nvals, @selfregs, @lastreader, @calls, @dstartcls, @dstartrefs, @dstarttyps, d.typList, d.refList, d.clsDefList
 //@   summary @nvals = old(@nvals) + ite(err == nil, 1, 0)
 //@   summary @selfregs = old(@selfregs)
+//@   summary @calls = old(@calls)
 //@   let avail = old(@pos) < len(@in)
 //@   let tg    = @in[old(@pos)]
 //@   proves [C14,C06:struct-eof]      !avail ==> err != nil
 //@   proves [C01,C10:struct-null]     avail && tg == 'N' ==> err == nil && result0 == nil && @pos == old(@pos) + 1
-//@   proves [C01,C05:struct-compact]  avail && err == nil && 0x60 <= tg && tg <= 0x6f ==> @lastreader == 6
-//@   proves [C01,C05:struct-long]     avail && err == nil && tg == 'O' ==> @lastreader == 7
-//@   proves [C01,C04:struct-ref]      avail && err == nil && tg == 0x51 ==> @lastreader == 8
+//@   proves [C01,C05:struct-compact]  avail && 0x60 <= tg && tg <= 0x6f ==> @lastreader == 6 && @calls == old(@calls) + 1
+//@   proves [C01,C05:struct-long]     avail && tg == 'O' ==> @lastreader == 7 && @calls == old(@calls) + 1
+//@   proves [C01,C04:struct-ref]      avail && tg == 0x51 ==> @lastreader == 8 && @calls == old(@calls) + 1
 //@   proves [C01,C03:struct-reject]   avail && !(tg == 'Z' || tg == 'N' || tg == 0x4a || tg == 0x4b || tg == 'C' || tg == 'O' || tg == 0x51 || (0x60 <= tg && tg <= 0x6f)) ==> err != nil
 //@   ensures [C06:tables-grow] len(d.clsDefList) >= len(old(d.clsDefList)) && len(d.refList) >= len(old(d.refList)) && len(d.typList) >= len(old(d.typList))
 
 //@ func (*Decoder).ReadData
-//@   assigns @pos, @E, @declared, @rset, @nvals, @selfregs, @lastreader, @dstartcls, @dstartrefs, @dstarttyps, d.typList, d.refList, d.clsDefList
+//@   assigns @pos, @E, @declared, @rset, @nvals, @selfregs, @lastreader, @calls, @dstartcls, @dstartrefs, @dstarttyps, d.typList, d.refList, d.clsDefList
 //@   sets @dstartcls = len(old(d.clsDefList))
 //@   sets @dstartrefs = len(old(d.refList))
 //@   sets @dstarttyps = len(old(d.typList))
 //@   summary @nvals = old(@nvals) + ite(err == nil, 1, 0)
 //@   summary @selfregs = old(@selfregs)
+//@   summary @calls = old(@calls)
 //@   let avail = old(@pos) < len(@in)
 //@   let tg    = @in[old(@pos)]
 //@   let p1    = old(@pos) + 1
@@ -169,13 +180,13 @@ package hessian
 //@   proves [C01,C03,C07:data-long]  avail && G.isLong(tg) && p1 + G.longRest(tg) <= len(@in) ==> err == nil && istype(result0, "int64") && i.bv64(result0) == G.decLongT(tg, @in, p1) && @pos == p1 + G.longRest(tg)
 //@   proves [C01,C03,C08:data-double] avail && G.isDouble(tg) && p1 + G.doubleRest(tg) <= len(@in) ==> err == nil && istype(result0, "float64") && same(i.f64(result0), G.decDoubleT(tg, @in, p1)) && @pos == p1 + G.doubleRest(tg)
 //@   proves [C01,C03,C10:data-date]  avail && G.isDate(tg) && p1 + G.dateRest(tg) <= len(@in) ==> err == nil && istype(result0, "time.Time") && @pos == p1 + G.dateRest(tg)
-//@   proves [C01,C03:data-typedlist]   avail && err == nil && (tg == 'V' || tg == 0x55 || (0x70 <= tg && tg <= 0x77)) ==> @lastreader == 1
-//@   proves [C01,C03:data-untypedlist] avail && err == nil && (tg == 0x58 || tg == 0x57 || (0x78 <= tg && tg <= 0x7f)) ==> @lastreader == 2
-//@   proves [C01,C03:data-typedmap]    avail && err == nil && tg == 'M' ==> @lastreader == 3
-//@   proves [C01,C03:data-untypedmap]  avail && err == nil && tg == 'H' ==> @lastreader == 4
-//@   proves [C01,C05:data-compact-instance] avail && err == nil && 0x60 <= tg && tg <= 0x6f ==> @lastreader == 6
-//@   proves [C01,C05:data-long-instance]    avail && err == nil && tg == 'O' ==> @lastreader == 7
-//@   proves [C01,C04:data-ref]        avail && err == nil && tg == 0x51 ==> @lastreader == 8
+//@   proves [C01,C03:data-typedlist]   avail && (tg == 'V' || tg == 0x55 || (0x70 <= tg && tg <= 0x77)) ==> @lastreader == 1
+//@   proves [C01,C03:data-untypedlist] avail && (tg == 0x58 || tg == 0x57 || (0x78 <= tg && tg <= 0x7f)) ==> @lastreader == 2
+//@   proves [C01,C03:data-typedmap]    avail && tg == 'M' ==> @lastreader == 3 && @calls == old(@calls) + 1
+//@   proves [C01,C03:data-untypedmap]  avail && tg == 'H' ==> @lastreader == 4 && @calls == old(@calls) + 1
+//@   proves [C01,C05:data-compact-instance] avail && 0x60 <= tg && tg <= 0x6f ==> @lastreader == 6 && @calls == old(@calls) + 1
+//@   proves [C01,C05:data-long-instance]    avail && tg == 'O' ==> @lastreader == 7 && @calls == old(@calls) + 1
+//@   proves [C01,C04:data-ref]        avail && tg == 0x51 ==> @lastreader == 8 && @calls == old(@calls) + 1
 //@   proves [C03,C14:data-reject]     avail && (tg == 0x40 || tg == 0x45 || tg == 0x47 || tg == 0x50) ==> err != nil
 //@   ensures [C06:tables-grow] len(d.clsDefList) >= len(old(d.clsDefList)) && len(d.refList) >= len(old(d.refList)) && len(d.typList) >= len(old(d.typList))
 
@@ -207,7 +218,10 @@ package hessian
 //@   pure
 //@   ensures [C06:ensure-interface-err] result1 == err && (err != nil ==> result0 == in)
 //@   ensures [C06:non-carrier-unchanged] err == nil && !istype(in, "reflect.Value") && !istype(in, "*_refHolder") ==> result0 == in
-//@   ensures [C06:value-unwrapped] err == nil && istype(in, "reflect.Value") && !istype(R.iface(i.rv(in)), "*_refHolder") ==> result0 == R.iface(i.rv(in))
+//@   let u1 = ite(istype(in, "reflect.Value"), R.iface(i.rv(in)), in)
+//@   ensures [C06:value-unwrapped]  err == nil && !istype(u1, "*_refHolder") ==> result0 == u1
+//@   ensures [C06:holder-unwrapped]        err == nil && !istype(in, "reflect.Value") && istype(in, "*_refHolder") ==> result0 == R.iface(holdervalue(in))
+//@   ensures [C06:wrapped-holder-unwrapped] err == nil && istype(in, "reflect.Value") && istype(R.iface(i.rv(in)), "*_refHolder") ==> result0 == R.iface(holdervalue(R.iface(i.rv(in))))
 
 //@ func PackPtr
 //@   pure
@@ -219,13 +233,13 @@ package hessian
 //@   ensures [C11,C17:new-decoder] fresh(result) && result.typMap != nil && (typ != nil ==> result.typMap == typ)
 
 //@ func (*Decoder).ReadObject
-//@   assigns @pos, @E, @declared, @rset, @nvals, @selfregs, @lastreader, @dstartcls, @dstartrefs, @dstarttyps, d.typList, d.refList, d.clsDefList
+//@   assigns @pos, @E, @declared, @rset, @nvals, @selfregs, @lastreader, @calls, @dstartcls, @dstartrefs, @dstarttyps, d.typList, d.refList, d.clsDefList
 //@   ensures [C06:one-value] err == nil ==> @nvals == old(@nvals) + 1
 //@   ensures [C06:tables-continue] @dstartcls == len(old(d.clsDefList)) && @dstartrefs == len(old(d.refList)) && @dstarttyps == len(old(d.typList))
 //@   ensures [C06:tables-grow] len(d.clsDefList) >= len(old(d.clsDefList)) && len(d.refList) >= len(old(d.refList)) && len(d.typList) >= len(old(d.typList))
 
 //@ func (*Decoder).ReadFrom
-//@   assigns @pos, @E, @declared, @rset, @nvals, @selfregs, @lastreader, @dstartcls, @dstartrefs, @dstarttyps, d.reader, d.typList, d.refList, d.clsDefList
+//@   assigns @pos, @E, @declared, @rset, @nvals, @selfregs, @lastreader, @calls, @dstartcls, @dstartrefs, @dstarttyps, d.reader, d.typList, d.refList, d.clsDefList
 //@   ensures [C11:one-shot-from-reset-state] @dstartcls == 0 && @dstartrefs == 0 && @dstarttyps == 0 && d.reader == reader
 
 //@ func (*goHessian).Read
@@ -235,7 +249,7 @@ package hessian
 //@   ensures [C11:one-shot-from-reset-state] @dstartcls == 0 && @dstartrefs == 0 && @dstarttyps == 0
 
 //@ func (*Decoder).Decode
-//@   assigns @pos, @E, @declared, @rset, @nvals, @selfregs, @lastreader, @dstartcls, @dstartrefs, @dstarttyps, d.reader, d.typList, d.refList, d.clsDefList
+//@   assigns @pos, @E, @declared, @rset, @nvals, @selfregs, @lastreader, @calls, @dstartcls, @dstartrefs, @dstarttyps, d.reader, d.typList, d.refList, d.clsDefList
 //@   ensures [C11:one-shot-from-reset-state] @dstartcls == 0 && @dstartrefs == 0 && @dstarttyps == 0
 
 //@ func ToObject
@@ -243,3 +257,37 @@ package hessian
 
 //@ func (*goHessian).ToObject
 //@   ensures [C11:one-shot-from-reset-state] @dstartcls == 0 && @dstartrefs == 0 && @dstarttyps == 0
+
+// ---------------------------------------------------------------- tag predicates (C01, C03)
+
+//@ func listFixedTypedLenTag
+//@   pure
+//@   ensures [C03,C01:tag-typed-compact] result == (0x70 <= tag && tag <= 0x77)
+
+//@ func listFixedUntypedLenTag
+//@   pure
+//@   ensures [C03,C01:tag-untyped-compact] result == (0x78 <= tag && tag <= 0x7f)
+
+//@ func typedListTag
+//@   pure
+//@   ensures [C03,C01:tag-typed-list] result == (tag == 'V' || tag == 0x55 || (0x70 <= tag && tag <= 0x77))
+
+//@ func untypedListTag
+//@   pure
+//@   ensures [C03,C01:tag-untyped-list] result == (tag == 0x58 || tag == 0x57 || (0x78 <= tag && tag <= 0x7f))
+
+//@ func objectLenTag
+//@   pure
+//@   ensures [C03,C05:tag-compact-instance] result == (0x60 <= tag && tag <= 0x6f)
+
+//@ func refTag
+//@   pure
+//@   ensures [C03,C04:tag-ref] result == (tag == 0x51)
+
+//@ func stringEndTag
+//@   pure
+//@   ensures [C03,C09:tag-string-final] result == (tag == 'S' || tag <= 0x1f || (0x30 <= tag && tag <= 0x33))
+
+//@ func binaryEndTag
+//@   pure
+//@   ensures [C03,C09:tag-binary-final] result == (tag == 'B' || (0x20 <= tag && tag <= 0x2f))
